@@ -32,18 +32,20 @@ def main():
         files = ', '.join(re.sub(r'\s*\|.*', '', f).strip().replace(
             'asyncssh/', '') for f in m.get('files', []))
         own = m['name'].split('-')[0]
-        caught = m.get('caught_by', [])
+        fin = m.get('final', {})
+        caught = fin.get('caught_by', [])
         mech = ''
-        if own in m.get('checks', {}):
-            mech = ', '.join(m['checks'][own].get('mechanisms', [])[:3])
-        others = [c for c in caught if c != own]
-        note = m.get('note', '')
+        if own in fin.get('checks', {}):
+            mech = ', '.join(fin['checks'][own].get('mechanisms', [])[:2])
+        others = sorted(set(c for c in list(caught) + m.get('caught_by', [])
+                            if c != own))
         rows.append((m['name'], files, 'yes' if m.get('valid') else 'NO',
+                     m.get('first_run', ''),
                      'caught' if own in caught else 'MISSED', mech,
-                     ','.join(others), note))
-    print('| seed | file | valid | own check | mechanism reported | also '
-          'caught by | note |')
-    print('|---|---|---|---|---|---|---|')
+                     ','.join(others), m.get('strengthened', '')))
+    print('| seed | file | valid | first run | final (own check) | '
+          'mechanism reported | also caught by | what was strengthened |')
+    print('|---|---|---|---|---|---|---|---|')
     for r in rows:
         print('| ' + ' | '.join(r) + ' |')
 
